@@ -500,6 +500,93 @@ def obligations(tier):
                        lambda s0, e0, s1, e1: 0 <= s0 and s0 < e0 and e0 <= 6 and 0 <= s1 and s1 < e1 and e1 <= 6, budget=300, cost=20,
                        desc="Sequence.append of two located pieces: out-of-order or overlapping pieces are refused, never an ill-formed Sequence",
                        bounds="every pair of single-block pieces on a 6-letter parent (realised)", examples=[dict(s0=0, e0=2, s1=3, e1=5)]))
+    def ctor_at_boundaries():
+        """VALID intervals whose end lies on / next to a power of two (where the binning scheme changes level or runs out of levels): every interval class
+        constructs (no internal error), keeps its coordinates and gets an integer bin; run with the real bins()"""
+        from inscripta.biocantor.gene.collections import AnnotationCollection
+        from inscripta.biocantor.gene.feature import FeatureInterval, FeatureIntervalCollection
+        from inscripta.biocantor.gene.gene import GeneInterval
+        from inscripta.biocantor.gene.transcript import TranscriptInterval
+        from inscripta.biocantor.gene.variants import VariantInterval, VariantIntervalCollection
+
+        def fn(e, d, span, kind):
+            e, d, span, kind = concretize(e, d, span, kind)
+            with untraced():
+                end = 2 ** e + d
+                start = end - [1, 3, 131073, end][span] if [1, 3, 131073, end][span] <= end else 0
+                mk = [lambda: FeatureInterval([start], [end], PLUS, guid=1), lambda: TranscriptInterval([start], [end], MINUS, guid=2),
+                      lambda: CDSInterval([start], [end], PLUS, [CDSFrame.ZERO], guid=3), lambda: VariantInterval(start, end, "A", "indel", guid=4),
+                      lambda: GeneInterval([TranscriptInterval([start], [end], PLUS, guid=5)], guid=6),
+                      lambda: FeatureIntervalCollection([FeatureInterval([start], [end], PLUS, guid=7)], guid=8),
+                      lambda: VariantIntervalCollection([VariantInterval(start, end, "A", "indel", guid=9)], guid=10),
+                      lambda: AnnotationCollection(genes=[GeneInterval([TranscriptInterval([start], [end], PLUS, guid=11)], guid=12)])][kind]
+                o = mk()
+                ok = o.start == start and o.end == end
+                if hasattr(o, "bin"):
+                    ok = ok and isinstance(o.bin, int) and o.bin >= 1
+                if kind == 7:
+                    got = o.query_by_position(start, end, completely_within=False)
+                    ok = ok and len(list(got.iter_children())) == 1
+                return ok
+
+        return fn
+
+    out.append(Obl("valid_ctor_at_power_of_two_boundaries", ctor_at_boundaries(), dict(e=int, d=int, span=int, kind=int),
+                   lambda e, d, span, kind: 14 <= e and e <= 31 and -1 <= d and d <= 1 and 0 <= span and span <= 3 and 0 <= kind and kind <= 7, budget=900, cost=60,
+                   stubs=dict(bins="real"),
+                   desc="valid intervals ending at 2^e-1, 2^e, 2^e+1 (e = 14..31) of length 1 / 3 / 131073 / from 0: all eight interval and collection classes construct "
+                        "with the real bins() (no IndexError or other internal error), keep their coordinates, carry an integer bin, and an overlap query finds the member",
+                   bounds="18 exponents x 3 offsets x 4 lengths x 8 classes (closed by the solver)", examples=[dict(e=29, d=0, span=1, kind=0), dict(e=17, d=1, span=2, kind=7)]))
+    def adoption_refusals():
+        """members re-parented in place by a collection (C10 records the stale memo as F19): whatever was asked before, every question afterwards is answered
+        or refused with a DOCUMENTED exception (a BioCantorException / ValueError) - never an internal TypeError / AttributeError / IndexError"""
+        import harness.c10 as c10
+
+        fnc = c10.adoption_history()
+        cells = dict(zip(fnc.__code__.co_freevars, [c.cell_contents for c in fnc.__closure__]))
+        PRE, POST = cells["PRE"], cells["POST"]
+
+        def fn(kind, own, owner, pre):
+            kind, own, owner, pre = concretize(kind, own, owner, pre)
+            with untraced():
+                pars = [None, "chrom", "chunk", "bare"]
+
+                def par(k):
+                    return Parent(id="chr1", sequence_type="chromosome") if k == "bare" else c10._par(k)
+
+                if kind == 0:
+                    t1 = TranscriptInterval([2, 16], [14, 36], MINUS, [4, 16], [14, 30], [CDSFrame.ZERO, CDSFrame.TWO], transcript_id="tx", sequence_name="chr1",
+                                            parent_or_seq_chunk_parent=par(pars[own]))
+                    m = GeneInterval([t1], gene_id="gid", sequence_name="chr1", parent_or_seq_chunk_parent=par(pars[own]))
+                else:
+                    f1 = FeatureInterval([3, 12], [9, 20], PLUS, feature_name="fn", sequence_name="chr1", parent_or_seq_chunk_parent=par(pars[own]))
+                    m = FeatureIntervalCollection([f1], feature_collection_name="fc", sequence_name="chr1", parent_or_seq_chunk_parent=par(pars[own]))
+                if PRE[pre] is not None:
+                    try:
+                        PRE[pre](m)
+                    except (BioCantorException, ValueError):
+                        pass
+                try:
+                    coll = AnnotationCollection(genes=[m] if kind == 0 else None, feature_collections=[m] if kind == 1 else None, sequence_name="chr1",
+                                                parent_or_seq_chunk_parent=par(pars[owner]))
+                except (BioCantorException, ValueError):
+                    return True
+                for f in POST:
+                    try:
+                        f(m, coll)
+                    except (BioCantorException, ValueError):
+                        pass
+                return True
+
+        return fn
+
+    out.append(Obl("adopted_members_refuse_with_documented_errors", adoption_refusals(), dict(kind=int, own=int, owner=int, pre=int),
+                   lambda kind, own, owner, pre: 0 <= kind and kind <= 1 and 0 <= own and own <= 3 and 0 <= owner and owner <= 3 and 0 <= pre and pre <= 9, budget=900, cost=60,
+                   desc="gene / feature collection built on no parent, a chromosome, a chunk or a sequence-less chromosome, asked one of 9 questions (or none) and then "
+                        "handed to an annotation collection on any of these parents: each of 14 later questions (locations, queries, dictionaries, has_sequence, spliced / "
+                        "reference / genomic sequence) is answered or refused with a BioCantorException / ValueError, never with an internal error",
+                   bounds="2 member kinds x 4 own parents x 4 owner parents x 10 earlier questions (closed by the solver)",
+                   examples=[dict(kind=0, own=1, owner=3, pre=8), dict(kind=1, own=0, owner=1, pre=0)]))
     out.append(Obl("deep_location", deep_location(), dict(n=int), lambda n: n == 2 or n == 400 or n == 1200 or n == 5000, budget=120, cost=10,
                    desc="locations with 2 / 400 / 1200 / 5000 blocks answer positional queries without RecursionError", bounds="4 sizes (concrete)",
                    examples=[dict(n=400)]))
